@@ -19,6 +19,18 @@ for _pre in (_A + _Q, _A * 3, _Q * 3, _A * 3 + _Q, _Q * 3 + _A, _A * 3 + _Q * 3,
     for _mid in ("", "a", "a b", "\n", "a\nb"):
         for _end in ("", _A, _Q, _A * 2, _Q * 2, _A + _Q, _Q + _A, "a"):
             WORDS.append(_pre + _mid + _end)
+# reserved words are recognised without regard to case: every capitalisation of every reserved prefix, bare and with a tail
+for _w in ("data_", "save_", "loop_", "stop_", "global_"):
+    _letters = [i for i, c in enumerate(_w) if c.isalpha()]
+    for _mask in range(1 << len(_letters)):
+        _cs = list(_w)
+        for _b, _i in enumerate(_letters):
+            if _mask >> _b & 1:
+                _cs[_i] = _cs[_i].upper()
+        for _tail in ("", "x"):
+            WORDS.append("".join(_cs) + _tail)
+# near misses of the reserved words
+WORDS += ["data", "dat_a", "save", "sav_", "loop", "lo_op_", "stop", "stop_x", "global", "globa_l", "xdata_", "xloop_", " loop_", "loop_ "]
 WORDS = list(dict.fromkeys(WORDS))
 
 
